@@ -2,8 +2,9 @@
 
 Implementation side: real Driver devices on a real machine (virtual platform); the platform driver objects and the
 platform's rule setters are wrapped *in the harness process* to log every command with its virtual time stamp.
-Entry points: Driver.pulse/enable/timed_enable/disable, control events carrying arbitrary kwargs, coil_player,
-autofire hardware rules with coil overwrites, DualWoundCoil, DigitalOutput.
+Entry points: Driver.pulse/enable/timed_enable/disable (with and without max_wait_ms: PSU-delayed calls), control events
+carrying arbitrary kwargs, coil_player, autofire hardware rules with coil overwrites, DualWoundCoil; second stream
+(harness/common/entry_c08.py): ball-device ejectors, flippers, coil_player, DualWoundCoil, DigitalOutput, driver light.
 Model side: Gen/DriverVerify.lean (translated from driver.py on every run) executed by the fixed interpreter
 Model/PyExec.lean, plus Model/Driver.lean (command log + software timers).
 """
@@ -35,21 +36,27 @@ def _gen_driver_ops():
 
 GEN = [_gen_driver_verify, _gen_driver_ops, _gen_call_sites]
 MANIFEST = {
-    "text": "Proof on a Lean model whose code is regenerated from mpf/devices/driver.py on every run as data for two fixed interpreters: the four get_and_verify_* limit functions (pure subset) and the request methods pulse / enable / timed_enable / disable / _pulse_now / _enable_now / _enable_limit_reached / _notify_psu_and_get_wait_ms / event_* (effectful subset: calls on the platform driver, the delay manager, the PSU and the service controller become a log of effects). Proved for every coil configuration and every argument (ints, floats, NaN, None, bool, str, negative, zero): each limit function either raises or returns a value inside [0, limit]; running the TRANSLATED source of a request and folding its effects gives exactly the verdict, the platform commands (order, powers, durations) and the timed_disable / enable_limit_reached deadlines of the hand model Model/Driver.lean (requests_refine_source; a refused request has touched neither the platform driver nor a timer: refused_request_has_no_effect_in_source; control events equal the methods; the hold-limit callback switches off and leaves no timer); about that model: every command of every op sequence is within the limits, a software-timed enable always has its timer and the timer switches the coil off; the table of direct platform-driver call sites of the whole source tree (regenerated) contains only the modelled paths. The model is also tied to the real Driver by correspondence on every run; the oracle checks every command that reaches the (wrapped) platform driver of a real machine.",
-    "note": "Trusted: Lean kernel + standard axioms; translate/py2lean.py + translate/py2eff.py (Python ast -> St/Cd/Ex/ESt data) and the interpreters Model/PyExec.lean (~150 lines) and Model/PyEff.lean (~130 lines) giving that data Python's meaning; Model/DriverGen.lean applyEff (what a logged call on hw_driver / delay means for the two timers); the refinement theorems assume ConfigSane (platform max_pulse is a number, validated max_hold_duration is None or a number: checked on the real coil of every generated case) and max_wait_ms=None (PSU-delayed requests are covered by the oracle only) (validated differentially against the real functions); floats are modelled as exact micro-units (generated parameters are decimal with <= 6 digits; only comparisons occur); asyncio timers via the repo's TimeTravelLoop. Entry points not driven: ball-device ejectors and flipper sw_flip call the same Driver methods (covered by the Driver theorems, not by their own traces).",
-    "technique": "translator (Python ast -> deep-embedded Lean programs, pure and effectful) + Hoare-style and refinement proofs (hand model = translated source) re-checked against current source + differential correspondence and command-log oracle on the real Driver",
+    "text": "Proof on a Lean model whose code is regenerated from mpf/devices/driver.py on every run as data for two fixed interpreters: the four get_and_verify_* limit functions (pure subset) and the request methods pulse / enable / timed_enable / disable / _pulse_now / _enable_now / _enable_limit_reached / _notify_psu_and_get_wait_ms / event_* (effectful subset: calls on the platform driver, the delay manager, the PSU and the service controller become a log of effects). Proved for every coil configuration and every argument (ints, floats, NaN, None, bool, str, negative, zero): each limit function either raises or returns a value inside [0, limit]; running the TRANSLATED source of a request - with or without max_wait_ms, whatever wait time the PSU answers - and folding its effects gives exactly the verdict, the platform commands (order, powers, durations), the timed_disable / enable_limit_reached deadlines and the PSU-delayed calls (callback, deadline, keyword arguments) of the hand model Model/Driver.lean (requests_refine_source; a refused request has touched neither the platform driver nor a timer nor the pending calls: refused_request_has_no_effect_in_source; the delayed callbacks _pulse_now / _enable_now equal the model's runPend: delayed_calls_refine_source; control events equal the methods; the hold-limit callback switches off and leaves no timer); about that model, by induction over ALL sequences of requests (immediate or PSU-delayed), clock advances and single timer firings in any order the event loop may choose among same-instant timers: every command - sent at once, by a software timer or by a delayed call - is within the limits (cmd_within_limits), a software-timed enable always has its timer registered and not missed and the timer switches the coil off (soft_pulse_always_has_timer, soft_timer_fires*), a coil held by _enable_now since t on a coil with max_hold_duration has its watchdog registered for exactly t + max_hold_duration, not missed, and firing it sends disable (limit_always_armed, limit_timer_disables; for an enable delayed by the PSU t is the moment it is switched ON: delayed_enable_limited_from_switch_on); the table of direct platform-driver call sites of the whole source tree (regenerated) contains only the modelled paths. The model is tied to the real Driver by correspondence on every run (the real event loop's choice among due timers is logged and replayed to the model as fire ops; the real PSU's answer is logged and passed in); the oracle checks every command that reaches the (wrapped) platform driver of a real machine, in a second stream also for ball-device ejectors (pulse / hold / enable: eject_one_ball with jam, retry and per-ball pulse times, ball_search), Flipper sw_flip / sw_release / enable / disable (rules), coil_player (all actions, max_wait_ms), DualWoundCoil, DigitalOutput, a light on a coil (driver-light platform) and autofire rules with coil overwrites.",
+    "note": "Trusted: Lean kernel + standard axioms; translate/py2lean.py + translate/py2eff.py (Python ast -> St/Cd/Ex/ESt data) and the interpreters Model/PyExec.lean (~150 lines) and Model/PyEff.lean (~130 lines) giving that data Python's meaning; Model/DriverGen.lean applyEff (what a logged call on hw_driver / delay means for the two named timers and the nameless delayed calls); the refinement theorems assume ConfigSane (platform max_pulse is a number, validated max_hold_duration is None or a number: checked on the real coil of every generated case) and that collaborators answer rather than raise (a PSU that raises on an ill-typed max_wait_ms is driven by the oracle only); the PSU's wait time is an input of the model (logged from the real PowerSupplyUnit), its busy-time arithmetic is not modelled; floats are modelled as exact micro-units (generated parameters are decimal with <= 6 digits; only comparisons occur; waits are whole milliseconds); asyncio timers via the repo's TimeTravelLoop, the order among timers due at the same millisecond is taken from the real loop, never guessed. advance's fuel bound (2 x pending calls + 3) is not proved sufficient (out of fuel the model clock stops before the unfired timer, so the invariants hold regardless; the correspondence would show a shortfall). The entry points of the second stream (ejectors, flippers, coil_player, dual-wound, digital output, driver light, rules) are covered by the oracle on real traces and by the call-site closure theorem, not by Lean models of their own.",
+    "technique": "translator (Python ast -> deep-embedded Lean programs, pure and effectful) + Hoare-style and refinement proofs (hand model = translated source) re-checked against current source + invariants by induction over all op sequences and timer schedules + differential correspondence (scheduler choices and PSU answers replayed) and command-log oracle on the real Driver and the devices that use it",
     "translated": True,
 }
-RULE = ("a case = one coil limit configuration (max/default pulse ms, pulse power, hold power, allow_enable, "
-        "max_hold_duration) + 1-8 ops (api pulse/enable/timed_enable/disable with parameters from a boundary set incl. "
-        "0, negatives, fractions, >1, NaN, bool, None; control events with kwargs; coil_player entries; autofire rule "
-        "overwrites; dual-wound and digital-output ops; time advances on the 1/8 s grid). non-trivial = at least one op "
-        "carries a non-default parameter or is refused; distinct = canonical JSON of (config, ops)")
-TRUSTED = ["modelled, not verified: asyncio timers (TimeTravelLoop), PSU wait logic (max_wait_ms not exercised), "
-           "hardware platforms' own handling of a command once it is within limits",
+RULE = ("main stream: a case = one coil limit configuration (max/default pulse ms, pulse power, hold power, allow_enable, "
+        "max_hold_duration) + 1-12 ops (api pulse/enable/timed_enable/disable with parameters from a boundary set incl. "
+        "0, negatives, fractions, >1, NaN, bool, None; the same with max_wait_ms from {None, 0, 50..1000, -5, 2.5, True, str} "
+        "behind a PSU kept busy by earlier requests, incl. directed coincidences of a delayed call with the hold-limit timer / "
+        "timed_disable at the same millisecond and queues of delayed calls; control events with kwargs; coil_player entries; "
+        "autofire rule overwrites; dual-wound ops; machine-variable defaults; time advances on the 1/8 s grid). second stream: "
+        "limits for ten coils + device options (jam/retry/eject times, max wait, enable time, release time, player entries) + "
+        "3-10 entry-point ops. non-trivial = at least one op carries a non-default parameter or is refused / any "
+        "entry-point op; distinct = canonical JSON of the case")
+TRUSTED = ["modelled, not verified: asyncio timers (TimeTravelLoop; same-instant order replayed from the real loop), the PSU's "
+           "busy-time arithmetic (its answer is an input), hardware platforms' own handling of a command once it is within limits",
            "translate/py2lean.py + Model/PyExec.lean (Python subset semantics), differential-tested on every run"]
 ASSUMPTIONS = ["float parameters are decimal values with at most 6 fractional digits (exact in the micro-unit model)",
-               "a limit configured as 0/None counts as unset (the code's own truthiness rule)"]
+               "a limit configured as 0/None counts as unset (the code's own truthiness rule)",
+               "PSU wait times are whole milliseconds (integer pulse lengths and release_wait_ms on the ms grid)",
+               "collaborator objects (PSU, delay manager, platform driver) answer rather than raise"]
 
 NAN = float("nan")
 MS_VALUES = [None, None, 0, 1, 5, 10, 20, 30, 50, 51, 100, 255, 256, 300, 1000, -1, -5, -100, True, 10.0, 2.5, "10"]
@@ -105,7 +112,23 @@ def pick_pw(r):
     return r.choice([None, 0.125, 0.25]) if r.random() < 0.55 else r.choice(PW_VALUES)
 
 
+MW_VALUES = [None, 0, 50, 100, 300, 500, 1000, 1000, 1000, -5, 2.5, True, "100"]
+
+
+def gen_wait_op(r, mw=None):
+    """a request with max_wait_ms (the PSU may delay it: it is busy after every accepted pulse / enable)"""
+    mw = r.choice(MW_VALUES) if mw is None else mw
+    k = r.random()
+    if k < 0.45:
+        return ["pulse_w", pick_ms(r), pick_pw(r), mw]
+    if k < 0.85:
+        return ["enable_w", pick_ms(r), pick_pw(r), pick_pw(r), mw]
+    return ["timed_w", pick_ms(r), pick_pw(r), pick_ms(r), pick_pw(r), mw]
+
+
 def gen_op(r):
+    if r.random() < 0.12:
+        return gen_wait_op(r)
     k = r.random()
     if k < 0.28:
         return ["pulse", r.choice(["api", "api", "event"]), pick_ms(r), pick_pw(r)]
@@ -221,6 +244,36 @@ def eff_limits(coil):
             "max_hold_duration": c["max_hold_duration"] or None}
 
 
+_CUR = None          # the Run whose coil's delay manager is being observed
+_PATCHED = False
+
+
+def _patch_delays():
+    """observe (from the harness process) the real DelayManager: which nameless delays the coil adds (the PSU-delayed
+    `_pulse_now` / `_enable_now` calls) and which delay callback the event loop runs, in the order it runs them"""
+    global _PATCHED
+    if _PATCHED:
+        return
+    from mpf.core.delays import DelayManager
+    orig_add, orig_cb = DelayManager.add, DelayManager._process_delay_callback
+
+    def add(self, ms, callback, name=None, **kwargs):
+        res = orig_add(self, ms, callback, name, **kwargs)
+        r = _CUR
+        if r is not None and not name and self is getattr(r.coil, "delay", None):
+            r.pend_names.append(res)
+        return res
+
+    def process(self, name, callback, **kwargs):
+        r = _CUR
+        if r is not None and self is getattr(r.coil, "delay", None):
+            r.fired.append((round(r.vm.now() * 1000), name))
+        return orig_cb(self, name, callback, **kwargs)
+    DelayManager.add = add
+    DelayManager._process_delay_callback = process
+    _PATCHED = True
+
+
 class Run:
     """one real machine + command log"""
 
@@ -234,6 +287,24 @@ class Run:
         self.coil = m.coils["c0"]
         self.coil1 = m.coils["c1"]
         self.log1 = []
+        self.pend_names = []     # nameless delays of c0 still pending, in the order they were added (= the model's `pend`)
+        self.fired = []          # (tick, delay name) of every delay callback of c0 the loop ran
+        self.psu_answers = []    # what the real PSU answered to get_wait_time_for_pulse
+        global _CUR
+        _patch_delays()
+        _CUR = self
+        psu = self.coil.config["psu"]
+        psu_cls = type(psu)
+        if not getattr(psu_cls, "_c08_wrapped", False):
+            orig_wait = psu_cls.get_wait_time_for_pulse
+
+            def get_wait(self_, pulse_ms, max_wait_ms):
+                w = orig_wait(self_, pulse_ms, max_wait_ms)
+                if _CUR is not None and self_ is _CUR.coil.config["psu"]:
+                    _CUR.psu_answers.append(w)
+                return w
+            psu_cls.get_wait_time_for_pulse = get_wait
+            psu_cls._c08_wrapped = True
         vm = self.vm
         hw1 = self.coil1.hw_driver
 
@@ -335,6 +406,13 @@ class Run:
             elif kind == "autofire":
                 m.events.post("af_on" if op[1] == "enable" else "af_off")
                 self.vm.run()
+            elif kind in ("pulse_w", "enable_w", "timed_w"):
+                names = {"pulse_w": ("pulse_ms", "pulse_power", "max_wait_ms"),
+                         "enable_w": ("pulse_ms", "pulse_power", "hold_power", "max_wait_ms"),
+                         "timed_w": ("timed_enable_ms", "hold_power", "pulse_ms", "pulse_power", "max_wait_ms")}[kind]
+                kw = {k: v for k, v in zip(names, op[1:]) if v is not None}
+                {"pulse_w": c.pulse, "enable_w": c.enable, "timed_w": c.timed_enable}[kind](**kw)
+                self.vm.run()
             elif kind == "enable_wait":
                 c.enable(max_wait_ms=op[1])          # PSU-delayed enable (same path as EnableCoilEjector)
                 self.vm.run()
@@ -361,7 +439,8 @@ class Run:
                     self.vm.run()
             return "ok"
         except BaseException as e:  # a refusal (or a crash) - the machine may be unusable afterwards
-            self.dead = kind not in ("pulse", "enable", "timed_enable", "disable", "enable_wait", "pulse_wait", "dw") or \
+            self.dead = kind not in ("pulse", "enable", "timed_enable", "disable", "enable_wait", "pulse_wait", "dw",
+                                     "pulse_w", "enable_w", "timed_w") or \
                 (kind in ("pulse", "enable", "timed_enable", "disable") and op[1] != "api")
             if not self.dead:
                 try:
@@ -374,6 +453,8 @@ class Run:
     cur = "boot"
 
     def stop(self):
+        global _CUR
+        _CUR = None
         self.vm.stop()
 
 
@@ -519,7 +600,7 @@ def unpv(t):
     raise ValueError(t)
 
 
-NOSRC = ("advance", "setvar", "enable_wait", "pulse_wait", "dw")      # ops without an api/event source field
+NOSRC = ("advance", "setvar", "enable_wait", "pulse_wait", "dw", "pulse_w", "enable_w", "timed_w")      # ops without an api/event source field
 
 
 def tok_op(op):
@@ -532,6 +613,23 @@ def untok_op(t):
     if t[0] == "dw":
         return ["dw", t[1]] + [unpv(x) for x in t[2:]]
     return [t[0]] + [x if (i == 0 and t[0] not in NOSRC) else unpv(x) for i, x in enumerate(t[1:])]
+
+
+def model_line(op, answers):
+    """the model's op line; a request with max_wait_ms carries what the real PSU answered (N: it was not asked / it raised)"""
+    w = pv(answers[-1]) if answers else "N"
+    k = op[0]
+    if k == "pulse_w":
+        return "op pulse_wait %s %s" % (" ".join(pv(x) for x in op[1:4]), w)
+    if k == "enable_w":
+        return "op enable_wait %s %s" % (" ".join(pv(x) for x in op[1:5]), w)
+    if k == "timed_w":
+        return "op timed_enable_wait %s" % " ".join(pv(x) for x in op[1:6])
+    if k == "enable_wait":
+        return "op enable_wait N N N %s %s" % (pv(op[1]), w)
+    if k == "pulse_wait":
+        return "op pulse_wait %s N %s %s" % (pv(op[1]), pv(op[2]), w)
+    return "op " + " ".join(tok_op(op))
 
 
 def run_case(ctx, cfg, player, af, ops, model, r, sample=True):
@@ -552,23 +650,54 @@ def run_case(ctx, cfg, player, af, ops, model, r, sample=True):
             verify_corr(ctx, case, run.coil, model, r)
             model.ask("reset " + str(run.t0))
         for op in ops:
-            n0 = len(run.log)
+            n0, f0, a0 = len(run.log), len(run.fired), len(run.psu_answers)
             res = run.do(op)
             results.append(res)
             ctx.count("op_" + op[0])
             ctx.count("res_" + res.split(":")[0])
-            if op[0] in ("player", "autofire", "enable_wait", "pulse_wait", "dw"):
-                synced = False       # coil_player / autofire glue and PSU waits are not in the Driver model: oracle only from here on
+            if op[0] in ("pulse_w", "enable_w", "timed_w") and op[-1] is not None and num(op[-1]) is None:
+                synced = False       # an ill-typed max_wait_ms makes the PSU itself raise: collaborators that raise are outside the effect model
+                ctx.count("psu_raised_unsynced")
+            if op[0] in ("player", "autofire", "dw"):
+                synced = False       # coil_player / autofire / dual-wound glue is not in the Driver model: oracle only from here on
             if op[0] == "setvar":
                 if model is not None and not run.dead:
                     model.ask("cfg " + cfg_tokens(run.coil))     # the templated default changed: new environment
                 continue
             if model is not None and synced:
-                line = "op " + " ".join(tok_op(op))
-                ans = model.ask(line)
-                impl = res.split(":")[0] + "".join(" %s@%d:%s" % (n, t - run.t0, fmt_args(a)) for n, t, a, _ in run.log[n0:])
-                # two software timers due at the same instant fire in asyncio's heap order (not modelled): the second
-                # disable may or may not be cancelled by the first.  disable is idempotent: collapse repeats at one instant.
+                cmds = "".join(" %s@%d:%s" % (n, t - run.t0, fmt_args(a)) for n, t, a, _ in run.log[n0:])
+                if op[0] == "advance":
+                    # the event loop chose the order of the timers it ran; the model is told which one ran (`fire`) and
+                    # answers not-enabled if that timer could not run then; the final advance_to must find nothing left
+                    answers = []
+                    for t, name in run.fired[f0:]:
+                        if name == "timed_disable":
+                            which = "td"
+                        elif name == "enable_limit_reached":
+                            which = "lim"
+                        elif name in run.pend_names:
+                            which = "pend %d" % run.pend_names.index(name)
+                            run.pend_names.remove(name)
+                            ctx.count("fired_delayed_call")
+                        else:
+                            which = "unknown"
+                        ctx.count("fired_" + which.split(" ")[0])
+                        answers.append(model.ask("op fire " + which))
+                    answers.append(model.ask("op advance_to %d" % (round(run.vm.now() * 1000) - run.t0)))
+                    bad = [a for a in answers if not a.startswith("ok")]
+                    ans = bad[0] if bad else "ok" + "".join(a[2:] for a in answers)
+                    impl = "ok" + cmds     # an exception escaping a timer callback is not a refusal of anything: commands only
+                else:
+                    ans = model.ask(model_line(op, run.psu_answers[a0:]))
+                    impl = res.split(":")[0] + cmds
+                    for t, name in run.fired[f0:]:
+                        if name in run.pend_names:       # a delayed call due at once: not expected (waits are >= 1 ms)
+                            run.pend_names.remove(name)
+                            ctx.count("delayed_call_fired_inside_request")
+                    if run.psu_answers[a0:] and num(run.psu_answers[-1]) and run.psu_answers[-1] > 0:
+                        ctx.count("psu_delayed_request")
+                # two named software timers due at the same instant: the second disable may or may not be cancelled by the
+                # first.  disable is idempotent: collapse repeats at one instant.
                 ctx.compare(dict(case, what="op", op=op), dedupe(impl), dedupe(ans))
             if run.dead:
                 break
@@ -641,13 +770,41 @@ def gen_timer_case(r):
             ops.append(["setvar", r.choice([5, 20, 40, 250, 500])])
         else:
             ops.append(["advance", r.choice([1, 1, 2, 2, 3, 4, 8])])
-    if r.random() < 0.35:
+    k = r.random()
+    if k < 0.3:
         # PSU scenario: a pulse makes the power supply busy, the next request is delayed by the PSU, something else
         # (a disable, another request) lands inside the wait
         i = r.randint(0, len(ops))
         ops[i:i] = [["pulse", "api", r.choice([50, 100, 200]), None],
-                    r.choice([["enable_wait", r.choice([100, 300, 1000])], ["pulse_wait", r.choice([20, 300]), 500]]),
+                    r.choice([["enable_wait", r.choice([100, 300, 1000])], ["pulse_wait", r.choice([20, 300]), 500],
+                              ["enable_w", r.choice([None, 10]), None, r.choice([None, 0.5]), 1000],
+                              ["pulse_w", r.choice([10, 300, 0]), None, 1000]]),
                     r.choice([["disable", "api"], ["disable", "event"], ["advance", 1], ["enable", "api", None, None, None]])]
+    elif k < 0.45:
+        # coincidence: the delayed call becomes due at the very instant the hold-limit timer does (the loop picks the order)
+        cfg["max_hold_duration"] = r.choice([0.25, 0.5])
+        busy = int(cfg["max_hold_duration"] * 1000) - 10
+        ops = [["enable", "api", None, None, None], ["pulse", "api", busy, None],
+               r.choice([["enable_w", None, None, None, 1000], ["pulse_w", r.choice([10, 300]), None, 1000]]),
+               r.choice([["disable", "api"], ["advance", 1], ["enable", "api", None, None, None]]),
+               ["advance", r.choice([2, 4, 8])], r.choice([["disable", "api"], ["advance", 4]]), ["advance", 8]]
+        cfg.pop("max_pulse_ms", None)
+        if cfg.get("default_pulse_ms") == "machine.kick":
+            cfg.pop("default_pulse_ms")
+    elif k < 0.6:
+        # coincidence: a delayed call and the timed_disable of a software-timed pulse due at the same millisecond
+        ops = [["pulse", "api", 500, None], ["advance", 1],
+               r.choice([["pulse_w", 10, None, 1000], ["enable_w", None, None, None, 1000], ["pulse_w", 300, None, 1000]]),
+               ["pulse", "api", 385, None], r.choice([["advance", 2], ["advance", 4]]), ["advance", 8]]
+        cfg.pop("max_pulse_ms", None)
+        if cfg.get("default_pulse_ms") == "machine.kick":
+            cfg.pop("default_pulse_ms")
+    elif k < 0.75:
+        # several requests queue up behind a busy PSU
+        i = r.randint(0, len(ops))
+        ops[i:i] = [["pulse", "api", r.choice([50, 100, 240]), None]] + \
+                   [gen_wait_op(r, r.choice([300, 1000, 1000])) for _ in range(r.randint(1, 3))] + \
+                   [r.choice([["disable", "api"], ["advance", 1], ["advance", 2]])]
     return cfg, gen_player(r), {}, ops
 
 
@@ -658,6 +815,61 @@ def gen_case(r):
     return cfg, gen_player(r), gen_af(r), [gen_op(r) for _ in range(r.randint(1, 8))]
 
 
+def run_entry_case(ctx, case, sample=True):
+    """second stream (harness/common/entry_c08.py): ejectors, flippers, coil_player, dual-wound, digital output, driver
+    light, hardware rules on one real machine; the oracle on the command log of EVERY coil"""
+    from harness.common import entry_c08 as E
+    run = E.EntryRun(case)
+    full = dict(case, stream="entry")
+    try:
+        run.start()
+    except BootError:
+        ctx.count("entry_config_rejected")
+        ctx.evaluated(full, False)
+        return True
+    ok = True
+    try:
+        results = []
+        for op in case["ops"]:
+            res = run.do(op)
+            results.append(res)
+            ctx.count("entry_op_" + op[0] + ("_" + str(op[1]) if op[0] in ("search", "flip", "player") else ""))
+            ctx.count("entry_res_" + res.split(":")[0])
+            if run.dead:
+                break
+        if not run.dead:
+            try:
+                run.vm.advance(4.0)
+            except BaseException:
+                pass
+        end = round(run.vm.now() * 1000)
+        ctx.evaluated(full, any(o[0] != "advance" for o in case["ops"]), sample=sample)
+        m = run.vm.machine
+        for name in E.COILS:
+            log = run.logs[name]
+            if not log:
+                continue
+            ctx.count("entry_cmds_" + name, len(log))
+            ok = check_log(ctx, dict(full, coil=name), m.coils[name], log, end) and ok
+            pend = soft_pulse_check(ctx, full, log, None)
+            if pend is not None and not run.dead:
+                ctx.fail("soft-pulse-not-disabled", dict(full, coil=name), {"enabled_at_tick": pend, "log": log[-6:]})
+                ok = False
+        ctx.count("entry_cmds_digital_output", len(run.do_log))
+        # observation outside the property (not a failure): EnableCoilEjector arms its switch-off at request time; when the
+        # PSU delays the enable past eject_coil_enable_time the disable comes first and the coil stays on
+        log = run.logs["c_en"]
+        if log and log[-1][0] == "enable" and any(o[0] == "eject_enable" for o in case["ops"]) and not run.dead \
+                and not m.coils["c_en"].config["max_hold_duration"]:
+            dis = [t for n, t, a, src in log if n == "disable"]
+            if dis and dis[-1] < log[-1][1] and log[-1][3] == "enable":
+                ctx.count("observed_outside_property_enable_ejector_left_on_after_psu_delay")
+                ctx.notes.setdefault("observed_outside_property_enable_ejector_left_on_after_psu_delay", full)
+    finally:
+        run.stop()
+    return ok
+
+
 def run(ctx):
     model = None if getattr(ctx, "model_unavailable", False) else leanproc.LeanProc(ID)
     try:
@@ -665,6 +877,9 @@ def run(ctx):
             r = ctx.rng("case", i)
             cfg, player, af, ops = gen_case(r)
             run_case(ctx, cfg, player, af, ops, model, r)
+        from harness.common import entry_c08
+        for i in range(ctx.n(80, 1200)):
+            run_entry_case(ctx, entry_c08.gen_entry_case(ctx.rng("entry", i)))
     finally:
         if model is not None:
             model.close()
@@ -672,4 +887,7 @@ def run(ctx):
 
 def replay(ctx, rep):
     c = rep["case"]
+    if c.get("stream") == "entry":
+        run_entry_case(ctx, {k: c[k] for k in ("limits", "dev", "ops")})
+        return
     run_case(ctx, c["cfg"], c["player"], c["af"], [untok_op(t) for t in c["ops"]], None, ctx.rng("replay"))
